@@ -22,6 +22,28 @@ func init() {
 
 // dataChanSend: the channel operand of a send (Send instr or select send state) derives from Stream.dataChan.
 func isDataChan(v ssa.Value, dc *types.Var) (direct bool, cached bool) {
+	// a variable that is nil until the reference is looked up (`var ch chan T; if !stopped { ch = s.dataChan }`)
+	if _, isPhi := v.(*ssa.Phi); isPhi {
+		some := false
+		for _, l := range phiLeaves(v) {
+			if k, isK := l.(*ssa.Const); isK && k.Value == nil {
+				continue
+			}
+			if _, again := l.(*ssa.Phi); again {
+				return false, false
+			}
+			d, c := isDataChan(l, dc)
+			if !d && !c {
+				return false, false
+			}
+			some = true
+			direct, cached = direct || d, cached || c
+		}
+		if !some {
+			return false, false
+		}
+		return direct, cached && !direct
+	}
 	t := TermOf(v, nil)
 	if t.Kind == "field" && t.Field == dc {
 		// direct field load or a local copy
@@ -133,6 +155,14 @@ func runC19(a *A) {
 					if direct {
 						held := L.Held(in)
 						_, ok := held[key]
+						if !ok {
+							// the field read under the lock into a local, the send after the unlock: a cached
+							// reference (that the read itself is locked is locks/guarded-by's obligation)
+							if why, okc := cachedSendOK(fn); okc {
+								a.Ok(construct, in.Pos(), "send on a reference read earlier: %s", why)
+								continue
+							}
+						}
 						a.Check(ok, construct, in.Pos(), "sends on the input buffer while holding dataChanMux (an expansion cannot swap the channel under the send)", fmt.Sprintf("sends on Stream.dataChan without holding dataChanMux (lockset %s): an expansion can swap the channel and strand the row on the orphaned one", held))
 					} else {
 						why, ok := cachedSendOK(fn)
@@ -235,11 +265,33 @@ func runC19(a *A) {
 		for _, st := range storesToField(fn, dc) {
 			swap = st
 		}
+		// the migration as a whole may be a helper that is handed the new channel (`s.installDataChan(make(…))`):
+		// the rule then judges that helper, its channel parameter standing for the argument of the call
+		entry := fn
+		if swap == nil {
+			for _, h := range a.helpersOf(entry) {
+				for _, st := range storesToField(h, dc) {
+					swap, fn = st, h
+				}
+			}
+		}
 		if swap == nil {
 			a.Bad(fname(fn)+"#swap", fn.Pos(), "expandDataChannel never stores the new channel")
 			return
 		}
-		mk, isMk := phiLeaves(swap.Val)[0].(*ssa.MakeChan)
+		swapVal := phiLeaves(swap.Val)[0]
+		if prm, isPrm := swapVal.(*ssa.Parameter); isPrm && fn != entry {
+			for i, q := range fn.Params {
+				if q == prm {
+					allInstrs(entry, func(x ssa.Instruction) {
+						if c, ok := x.(*ssa.Call); ok && c.Call.StaticCallee() == fn && i < len(c.Call.Args) {
+							swapVal = phiLeaves(c.Call.Args[i])[0]
+						}
+					})
+				}
+			}
+		}
+		mk, isMk := swapVal.(*ssa.MakeChan)
 		a.Check(isMk && L.Held(swap)[key] == 'W', fname(fn)+"#swap-under-lock", swap.Pos(), "the new channel is installed under the write lock", "the channel swap is not done under dataChanMux.Lock with a freshly made channel")
 		// drain: a select receiving from the old channel (loaded from dataChan under the lock), whose received value is sent to the new channel
 		okDrain, okOffer := false, false
@@ -247,6 +299,13 @@ func runC19(a *A) {
 		// channel parameter of the helper stands for the argument of that call
 		hosts := append([]*ssa.Function{fn}, a.helpersOf(fn)...)
 		resolve := func(v ssa.Value) ssa.Value {
+			for {
+				if ct, ok := v.(*ssa.ChangeType); ok {
+					v = ct.X // a conversion to a directional channel type is the same channel
+					continue
+				}
+				break
+			}
 			prm, ok := v.(*ssa.Parameter)
 			if !ok {
 				return v
@@ -258,13 +317,26 @@ func runC19(a *A) {
 				}
 			}
 			var out ssa.Value
-			allInstrs(fn, func(x ssa.Instruction) {
-				if c, ok := x.(*ssa.Call); ok && c.Call.StaticCallee() == prm.Parent() && idx >= 0 && idx < len(c.Call.Args) {
-					out = c.Call.Args[idx]
-				}
-			})
+			for _, caller := range []*ssa.Function{fn, entry} {
+				allInstrs(caller, func(x ssa.Instruction) {
+					if c, ok := x.(*ssa.Call); ok && c.Call.StaticCallee() == prm.Parent() && idx >= 0 && idx < len(c.Call.Args) {
+						out = c.Call.Args[idx]
+					}
+				})
+			}
 			if out == nil {
 				return v
+			}
+			// (a conversion to a directional channel type is the same channel)
+			for {
+				if ct, ok := out.(*ssa.ChangeType); ok {
+					out = ct.X
+					continue
+				}
+				break
+			}
+			if l := phiLeaves(out); len(l) == 1 {
+				out = l[0]
 			}
 			return out
 		}
@@ -510,7 +582,7 @@ func runC19(a *A) {
 					if pathFromTo(in, func(y ssa.Instruction) bool { _, isRet := y.(*ssa.Return); return isRet }, nil,
 						func(y ssa.Instruction) bool {
 							st, ok := y.(*ssa.Store)
-							return ok && fieldAddrIs(st.Addr, dc) && phiLeaves(st.Val)[0] == ssa.Value(mk)
+							return ok && fieldAddrIs(st.Addr, dc) && resolve(phiLeaves(st.Val)[0]) == ssa.Value(mk)
 						}) {
 						left = in
 					}
@@ -560,6 +632,10 @@ func (a *A) ruleStrategyOutcome(fn *ssa.Function, checkNoDropWithoutTimeout bool
 		// D: mInputDropped.Inc()
 		if c, ok := in.(*ssa.Call); ok {
 			if cal := c.Call.StaticCallee(); cal != nil && cal.Name() == "Inc" && len(c.Call.Args) > 0 && isFieldOf(TermOf(c.Call.Args[0], nil), "stream.Stream", "mInputDropped") {
+				return "D"
+			}
+			// the same through a method value (`drop := s.mInputDropped.Inc` … `drop()`)
+			if name, recv := boundMethodCall(&c.Call); name == "Inc" && recv != nil && isFieldOf(TermOf(recv, nil), "stream.Stream", "mInputDropped") {
 				return "D"
 			}
 		}
@@ -1187,4 +1263,25 @@ func (a *A) ruleReceivedRowProcessed() int {
 		a.anchorFail("no receive from Stream.dataChan found in the processing goroutine")
 	}
 	return n
+}
+
+
+// boundMethodCall: cc calls a method value (`f := x.M` … `f()`); the method's name and the receiver it was bound to.
+func boundMethodCall(cc *ssa.CallCommon) (string, ssa.Value) {
+	var mc *ssa.MakeClosure
+	for _, l := range phiLeaves(cc.Value) {
+		m, ok := l.(*ssa.MakeClosure)
+		if !ok || (mc != nil && m != mc) {
+			return "", nil
+		}
+		mc = m
+	}
+	if mc == nil || len(mc.Bindings) != 1 {
+		return "", nil
+	}
+	w, _ := mc.Fn.(*ssa.Function)
+	if w == nil || !strings.HasPrefix(w.Synthetic, "bound method wrapper") {
+		return "", nil
+	}
+	return strings.TrimSuffix(w.Name(), "$bound"), mc.Bindings[0]
 }
